@@ -15,12 +15,16 @@ func init() {
 	userAgent = fmt.Sprintf("nsq_to_http v%s", version.Binary)
 }
 
-// noRedirect makes the client hand a 3xx answer back to the publisher instead of following it.
-// net/http would repeat a POST answered with 301/302/303 as a GET without the body (and a GET
-// without the query that carries the message): the redirect target's 200 would then finish a
-// message that no destination received. A 3xx is not a success for either publisher.
+// noRedirect stops the client from following a redirect that changes the request method.
+// net/http repeats a POST answered with 301/302/303 as a GET without the body: the redirect
+// target's 200 would then finish a message that no destination received, so such an answer is
+// handed back to the publisher (a 3xx is not a success). Redirects that keep the method are
+// followed as before: 307/308 re-send the body, and a GET keeps whatever query its Location carries.
 func noRedirect(req *http.Request, via []*http.Request) error {
-	return http.ErrUseLastResponse
+	if req.Method != via[0].Method || len(via) >= 10 {
+		return http.ErrUseLastResponse
+	}
+	return nil
 }
 
 func HTTPGet(endpoint string) (*http.Response, error) {
